@@ -295,7 +295,8 @@ def _tag_tests(f, var):
     for n in f.own_nodes():
         if not isinstance(n, ast.If):
             continue
-        parts = n.test.values if isinstance(n.test, ast.BoolOp) and isinstance(n.test.op, ast.And) else [n.test]
+        parts = n.test.values if isinstance(n.test, ast.BoolOp) else [n.test]
+        kind_ = False if len(parts) == 1 else ('and' if isinstance(n.test.op, ast.And) else 'or')
         for p in parts:
             if isinstance(p, ast.Compare) and isinstance(p.left, ast.Name) and len(p.ops) == 1:
                 # `tag = A['tag']` (the only binding of the local) and a test on `tag`
@@ -323,9 +324,9 @@ def _tag_tests(f, var):
                 if None in vals:
                     continue
                 if isinstance(p.ops[0], (ast.Eq, ast.In)):
-                    out.append((n, set(vals), True, len(parts) > 1))
+                    out.append((n, set(vals), True, kind_))
                 elif isinstance(p.ops[0], (ast.NotEq, ast.NotIn)):
-                    out.append((n, set(vals), False, len(parts) > 1))
+                    out.append((n, set(vals), False, kind_))
     return out
 
 
@@ -344,16 +345,18 @@ def _log_excluded(ctx, f, node, var, skip_tags=('log',)):
         excl = []      # (cfg test node, label) edges on which the tag cannot be t
         for ifn, vals, positive, conj in tests:
             tn = cfg.of_stmt[ifn]
+            # a conclusion from the True edge needs the part to be true there (not so for a disjunct of `or`); one from the False
+            # edge needs it to be false there (not so for a conjunct of `and`)
             if positive:
-                if t not in vals:
+                if t not in vals and conj != 'or':
                     excl.append((tn, True))        # tag in {tags other than t}
-                elif not conj:
+                elif t in vals and conj != 'and':
                     excl.append((tn, False))       # not (tag in {.., t, ..})
             else:
-                if t in vals:
+                if t in vals and conj != 'or':
                     excl.append((tn, True))        # tag not in {.., t, ..}
-                elif not conj:
-                    excl.append((tn, False))
+                elif t not in vals and conj != 'and':
+                    excl.append((tn, False))       # tag in {tags other than t}
         if not excl:
             return False
 
@@ -497,20 +500,37 @@ def r40_action_key_flow(ctx):
 
 
 def _dominating_sections(ctx, h, node):
-    """section literals S such that node is inside `if section == S` (or elif chain)"""
+    """section literals S such that every path from the entry of the hook to node takes an edge on which `section == S` holds (the True
+    edge of `section == S`, the False edge of `section != S`, conjunctions included) - however the test is spelled (if/elif chain,
+    guard clause with an early return, negated test)"""
+    cfg = cfg_of(h)
+    st = node
+    while st is not None and st not in cfg.of_stmt:
+        st = getattr(st, 'parent', None)
+    if st is None:
+        return set()
+    at = cfg.of_stmt[st]
+    pname = h.params[3] if len(h.params) > 3 else 'section'
+    edges = {}          # S -> set of (test node, label)
+    for t in cfg.nodes:
+        if t.kind != 'test':
+            continue
+        tt = t.ast.test
+        neg = False
+        while isinstance(tt, ast.UnaryOp) and isinstance(tt.op, ast.Not):
+            tt, neg = tt.operand, not neg
+        parts = tt.values if isinstance(tt, ast.BoolOp) and isinstance(tt.op, ast.And) and not neg else [tt]
+        for p in parts:
+            if isinstance(p, ast.Compare) and len(p.ops) == 1 and isinstance(p.left, ast.Name) and p.left.id in (pname, 'section') \
+                    and const_str(p.comparators[0]) is not None:
+                if isinstance(p.ops[0], ast.Eq) and (len(parts) == 1 or not neg):
+                    edges.setdefault(const_str(p.comparators[0]), set()).add((t, not neg))
+                elif isinstance(p.ops[0], ast.NotEq) and len(parts) == 1:
+                    edges.setdefault(const_str(p.comparators[0]), set()).add((t, neg))
     out = set()
-    child = node
-    n = getattr(node, 'parent', None)
-    while n is not None and n is not h.node:
-        if isinstance(n, ast.If) and any(child is b or _contains(b, child) for b in n.body):
-            t = n.test
-            parts = t.values if isinstance(t, ast.BoolOp) and isinstance(t.op, ast.And) else [t]
-            for p in parts:
-                if isinstance(p, ast.Compare) and isinstance(p.left, ast.Name) and p.left.id == 'section' \
-                        and isinstance(p.ops[0], ast.Eq) and const_str(p.comparators[0]):
-                    out.add(const_str(p.comparators[0]))
-        child = n
-        n = getattr(n, 'parent', None)
+    for S, es in edges.items():
+        if at not in cfg.reach([cfg.entry], edge_ok=lambda a, b, lab, es=es: (a, lab) not in es, include_start=True):
+            out.add(S)
     return out
 
 
@@ -717,18 +737,61 @@ def r42_dump_arity(ctx):
             return None
         need(len(h.params) >= 4, 'R42: %s does not take (line, action, cid, cstate)' % h.qualname)
         p_action, p_cid = h.params[2], h.params[3]
-        need(len(top) == 1 and none_test(top[0].test, p_cid) is not None, 'R42: %s is not `if cid is None: ... else: ...`' % h.qualname)
-        cid_none, cid_some = (top[0].body, top[0].orelse) if none_test(top[0].test, p_cid) else (top[0].orelse, top[0].body)
+        # the number of fields appended in each of the four cases (header / data row) x (per election / per candidate), found by
+        # walking the hook with `action is None` and `cid is None` decided: the nesting order of the two tests, elif chains, early
+        # returns and conditional expressions all come out the same
 
-        def split(stmts):
-            inner = [s for s in stmts if isinstance(s, ast.If) and none_test(s.test, p_action) is not None]
-            if not inner:
-                return _appended_counts(h, lv, stmts), _appended_counts(h, lv, stmts)
-            hb, db = (inner[0].body, inner[0].orelse) if none_test(inner[0].test, p_action) else (inner[0].orelse, inner[0].body)
-            return _appended_counts(h, lv, hb), _appended_counts(h, lv, db)
-        for label, stmts in (('per-election', cid_none), ('per-candidate', cid_some)):
-            hd, dt = split(stmts)
-            ctx.check(hd == dt, R, top[0], h, 'dump hook appends as many %s data fields as header fields' % label,
+        class _Refuse(Exception):
+            pass
+
+        def count(stmts, a_none, c_none):
+            """fields appended by the statements in that case; raises _Refuse on a test it cannot decide"""
+            nfields = 0
+            for st_ in stmts:
+                if isinstance(st_, ast.If):
+                    known = decide(st_.test, a_none, c_none)
+                    if known is None:
+                        raise _Refuse(unparse(st_.test))
+                    k_, done_ = count(st_.body if known else st_.orelse, a_none, c_none)
+                    nfields += k_
+                    if done_:
+                        return nfields, True
+                elif isinstance(st_, ast.Return):
+                    return nfields, True
+                elif isinstance(st_, ast.AugAssign) and isinstance(st_.target, ast.Name) and st_.target.id == lv and isinstance(st_.value, ast.IfExp):
+                    known = decide(st_.value.test, a_none, c_none)
+                    if known is None:
+                        raise _Refuse(unparse(st_.value.test))
+                    br_ = st_.value.body if known else st_.value.orelse
+                    nfields += len(br_.elts) if isinstance(br_, ast.List) else 0
+                else:
+                    nfields += _appended_counts(h, lv, [st_])
+            return nfields, False
+
+        def decide(t, a_none, c_none):
+            if isinstance(t, ast.UnaryOp) and isinstance(t.op, ast.Not):
+                k_ = decide(t.operand, a_none, c_none)
+                return None if k_ is None else not k_
+            if isinstance(t, ast.BoolOp):
+                ks = [decide(v_, a_none, c_none) for v_ in t.values]
+                if isinstance(t.op, ast.And):
+                    return False if False in ks else (None if None in ks else True)
+                return True if True in ks else (None if None in ks else False)
+            for pn_, val_ in ((p_action, a_none), (p_cid, c_none)):
+                k_ = none_test(t, pn_)
+                if k_ is not None:
+                    return k_ == val_
+                if isinstance(t, ast.Name) and t.id == pn_:
+                    return not val_         # truthiness of the action dict / the cid (ids start at 1)
+            return None
+        try:
+            table = {(a_, c_): count(h.node.body, a_, c_)[0] for a_ in (True, False) for c_ in (True, False)}
+        except _Refuse as e_:
+            ctx.unrecognised(R, h.node, h, 'the header / data branches of the dump hook', 'test `%s` is not on (action is None, cid is None)' % e_)
+            continue
+        for label, c_ in (('per-election', True), ('per-candidate', False)):
+            hd, dt = table[(True, c_)], table[(False, c_)]
+            ctx.check(hd == dt, R, h.node, h, 'dump hook appends as many %s data fields as header fields' % label,
                       'header branch appends %d, data branch appends %d' % (hd, dt),
                       '%s: header branch appends %d column name(s), data branch %d value(s): rows and header disagree' % (label, hd, dt))
     # ElectionRecord.dump: header construction vs row constructions
